@@ -964,7 +964,7 @@ class Registry:
             eng.bound = saved_bound
 
     def pure_fn_app(self, eng, c, cs, lineno):
-        scalar = ("bool", "str", "int", "node", "data", "bag", "set")
+        scalar = ("bool", "str", "int", "node", "data", "bag", "set", "opaque")
         is_opt = c.returns is not None and c.returns[0] == "opt" and c.returns[1][0] in scalar
         in_comp = (not eng.spec) and bool(getattr(eng, "_comp_ctx", None))
         if c.modifies or (c.raises and not (in_comp or eng.spec)) or c.returns is None or not (c.returns[0] in scalar or is_opt):
